@@ -582,6 +582,12 @@ def _format(a, pre):
     if m == "format":
         with default_locale(P(), a) as kw:
             return x.format(fmt, **kw)
+    if a.get("proc_locale"):          # the named helpers are fixed compositions: not affected by the process-wide locale
+        P().set_locale(a["proc_locale"])
+        try:
+            return getattr(x, m)()
+        finally:
+            P().set_locale("en")
     return getattr(x, m)()
 
 
@@ -595,7 +601,14 @@ def _from_format(a, pre):
     text = x.format(fmt, locale=a["locale"])
     if a["kind"] == "mismatch":
         bad = a["mutate"]
-        text2 = text[:bad % (len(text) + 1)] + "~" + text[bad % (len(text) + 1):]
+        if bad == -1:
+            text2 = "x " + text                      # junk in front
+        elif bad == -2:
+            text2 = text + " 1"                      # junk behind
+        elif bad == -3:
+            text2 = text[:4] + text                  # extra leading digits / a duplicated head
+        else:
+            text2 = text[:bad % (len(text) + 1)] + "~" + text[bad % (len(text) + 1):]
     else:
         text2 = text
     now = p.DateTime(*a["now"], tzinfo=p.UTC)
@@ -908,6 +921,9 @@ def _native_acc(a, pre):
     same("str()", lambda v: str(v))
     same("format-empty", lambda v: format(v, ""))
     same("format-percent", lambda v: format(v, "%H:%M:%S" if isinstance(v, _dt.time) else "%Y-%m-%d %j"))
+    # strftime specs with flags (glibc extensions), exactly as the native __format__ passes them on
+    same("format-percent-flags", lambda v: format(v, "%-H|%_M|%%" if isinstance(v, _dt.time) else "%-d|%e|%-m|%%|%_j"))
+    same("strftime-flags", lambda v: v.strftime("%-H|%_M|%%" if isinstance(v, _dt.time) else "%-d|%e|%-m|%%|%_j"))
     try:
         if not isinstance(x, _dt.time) and format(x, "YYYY-MM-DD") != x.format("YYYY-MM-DD"):
             xneq.append("format-spec")
